@@ -163,6 +163,14 @@ fn container_set(sub: &str, thorough: bool) -> Vec<(String, String, Comp, Packag
     if sub == "c05" || sub == "c06" {
         v.push(("huge-none-sep".into(), "huge".into(), Comp::None, Packaging::NoConcat, false));
     }
+    // one compressed cluster of 576 KiB of plain data: damage late in the compressed stream
+    if sub == "c05" || sub == "c06" {
+        v.push(("wide-zstd-sep".into(), "wide".into(), Comp::Zstd(5), Packaging::NoConcat, false));
+        v.push(("wide-lz4-sep".into(), "wide".into(), Comp::Lz4(3), Packaging::NoConcat, false));
+        if thorough {
+            v.push(("wide-lzma-sep".into(), "wide".into(), Comp::Lzma(1), Packaging::NoConcat, false));
+        }
+    }
     // concat of the three separate files
     v.push(("multi-zstd-concat".into(), "multi".into(), Comp::Zstd(5), Packaging::NoConcat, true));
     if thorough {
@@ -467,6 +475,35 @@ fn enumerate(sub: &str, thorough: bool, set: &[Loaded]) -> Vec<Case> {
                                     }
                                 }
                             }
+                        }
+                    }
+                }
+                "c05" | "c06" if l.desc.shape == "wide" => {
+                    // the content pack only (the other files are like everywhere else): a spread of
+                    // positions over the compressed cluster, ranges, truncations
+                    if !l.regions[fi].iter().any(|r| r.pack_kind == 'c') {
+                        continue;
+                    }
+                    let step = if thorough { 7 } else { 61 };
+                    let mut pos = 0;
+                    while pos < n {
+                        for mask in [0x01u8, 0xff] {
+                            v.push(Case { container: ci, file: fi, alt: Alt::Xor { pos, mask } });
+                        }
+                        pos += step;
+                    }
+                    for len in [64usize, 4096] {
+                        let mut s = 0;
+                        while s < n {
+                            v.push(Case { container: ci, file: fi, alt: Alt::Fill { start: s, len, val: 0 } });
+                            s += if thorough { len } else { 4096 };
+                        }
+                    }
+                    if sub == "c06" {
+                        let mut t = 0;
+                        while t < n {
+                            v.push(Case { container: ci, file: fi, alt: Alt::Truncate { len: t } });
+                            t += if thorough { 97 } else { 997 };
                         }
                     }
                 }
